@@ -22,7 +22,8 @@ def weighted(*pairs):
 
 
 def idx(far=True, span=14):
-    opts = [(10, st.integers(0, 11)), (4, st.integers(-11, -1)), (3, st.none()), (2, st.integers(-span, span))]
+    hi = max(11, span - 3)
+    opts = [(10, st.integers(0, hi)), (4, st.integers(-hi, -1)), (3, st.none()), (2, st.integers(-span, span))]
     if far:
         opts.append((1, st.sampled_from([10 ** 6, -10 ** 6, 100, -100, 12, 13, -12, -13])))
     return weighted(*opts)
@@ -51,12 +52,29 @@ def _variant(name, how):
     return name
 
 
+_ALL = []
+
+
+def all_names():
+    """every AnsiFormat name (rarely used ones included); read from the library once"""
+    if not _ALL:
+        try:
+            from ansi_string import AnsiFormat
+            _ALL.extend(n.lower() for n in AnsiFormat.__members__)
+        except Exception:
+            pass
+    return _ALL
+
+
 def wf_spec():
     """one well-formed setting spec (each resulting setting is one complete SGR parameter group)."""
     name = st.one_of(st.sampled_from(CORE_NAMES), st.sampled_from(CORE_NAMES), st.sampled_from(NAMES))
-    byte = st.sampled_from([0, 1, 2, 5, 128, 255, 38, 48, 58, 5, 2])   # 38/48/58 + 5/2: arguments that look like group introducers
+    byte = weighted((6, st.sampled_from([0, 1, 2, 5, 128, 255, 38, 48, 58, 5, 2])),   # 38/48/58 + 5/2 look like group introducers
+                    (1, st.integers(0, 255)))
     comp = st.sampled_from(['fg', 'fg', 'bg', 'ul', 'dul'])
+    anyname = st.sampled_from(all_names())
     return st.one_of(
+        st.tuples(anyname, st.sampled_from([0, 1, 2, 3])).map(lambda t: {'k': 'name', 'v': _variant(*t)}) if all_names() else st.nothing(),
         st.tuples(name, st.sampled_from([0, 0, 0, 1, 2, 3])).map(lambda t: {'k': 'name', 'v': _variant(*t)}),
         st.tuples(name, st.sampled_from([0, 0, 0, 1, 2, 3])).map(lambda t: {'k': 'name', 'v': _variant(*t)}),
         name.map(lambda n: {'k': 'fmt', 'v': n.upper()}),
@@ -107,6 +125,9 @@ class Cfg:
         self.far = True
         self.rich = False         # bias towards position-dependent formatting
         self.alphabet = None      # restrict base-text alphabet
+        self.big = False          # beyond small scope: long texts, many change points, wide index range
+        self.idx_span = 14
+        self.nranges = None       # (lo, hi) number of constructor ranges
         self.__dict__.update(kw)
 
 
@@ -146,10 +167,10 @@ def ctor(cfg):
     sp = specs(cfg)
     sp12 = specs(cfg, 1, 2)
     at = ansi_text(cfg)
-    nr = st.integers(2 if cfg.rich else 1, 5 if cfg.rich else 4)
+    nr = st.integers(*cfg.nranges) if cfg.nranges else st.integers(2 if cfg.rich else 1, 5 if cfg.rich else 4)
     d10 = st.integers(0, 9)
     d6 = st.integers(0, 5)
-    ix = idx(cfg.far)
+    ix = idx(cfg.far, cfg.idx_span)
     top = st.sampled_from([True, True, True, False])
     d3 = st.integers(0, 2)
 
@@ -208,20 +229,20 @@ def operand(cfg, depth):
 
 def op(cfg, depth, names=None, opnd=None):
     names = names or cfg.ops or (RICH_OPS if cfg.rich else BUILD_OPS)
-    width = st.integers(0, 16)
+    width = weighted((9, st.integers(0, 16)), (1, st.integers(17, 120))) if not cfg.big else st.integers(0, 150)
     fill = st.sampled_from([' ', ' ', '*', '0', ':', '+', '-', 'é'])
     ip = st.booleans()
     sub = small_sub(cfg)
     opd = opnd if opnd is not None else operand(cfg, depth)
     pa = ''.join(cfg.alphabet) if cfg.alphabet and all(len(x) == 1 for x in cfg.alphabet) else 'abAB -:01'
     table = {
-        'apply': st.fixed_dictionaries({'op': st.just('apply'), 's': specs(cfg), 'a': idx(cfg.far), 'b': idx(cfg.far),
+        'apply': st.fixed_dictionaries({'op': st.just('apply'), 's': specs(cfg), 'a': idx(cfg.far, cfg.idx_span), 'b': idx(cfg.far, cfg.idx_span),
                                         'top': st.sampled_from([True, True, False])}),
         'remove': st.fixed_dictionaries({'op': st.just('remove'), 's': st.one_of(st.none(), specs(cfg, 1, 2)),
-                                         'a': idx(cfg.far), 'b': idx(cfg.far)}),
-        'slice': st.fixed_dictionaries({'op': st.just('slice'), 'a': idx(cfg.far), 'b': idx(cfg.far)}),
+                                         'a': idx(cfg.far, cfg.idx_span), 'b': idx(cfg.far, cfg.idx_span)}),
+        'slice': st.fixed_dictionaries({'op': st.just('slice'), 'a': idx(cfg.far, cfg.idx_span), 'b': idx(cfg.far, cfg.idx_span)}),
         'index': st.fixed_dictionaries({'op': st.just('index'), 'i': st.integers(-12, 12)}),
-        'clip': st.fixed_dictionaries({'op': st.just('clip'), 'a': idx(cfg.far), 'b': idx(cfg.far), 'ip': ip}),
+        'clip': st.fixed_dictionaries({'op': st.just('clip'), 'a': idx(cfg.far, cfg.idx_span), 'b': idx(cfg.far, cfg.idx_span), 'ip': ip}),
         'add': st.fixed_dictionaries({'op': st.just('add'), 'x': opd}),
         'iadd': st.fixed_dictionaries({'op': st.just('iadd'), 'x': opd}),
         'join': st.fixed_dictionaries({'op': st.just('join'), 'xs': st.lists(opd, max_size=3)}),
@@ -273,7 +294,14 @@ def progs(cfg, depth=1):
     rich = copy.copy(cfg)
     rich.rich = True
     rich.min_text = max(cfg.min_text, 3)
-    return weighted((1, prog(cfg, depth)), (2, prog(rich, depth)))
+    big = copy.copy(cfg)
+    big.rich = True
+    big.big = True
+    big.min_text = max(cfg.min_text, 20)
+    big.max_text = max(cfg.max_text, 60)
+    big.idx_span = 70
+    big.nranges = (6, 16)
+    return weighted((3, prog(cfg, depth)), (6, prog(rich, depth)), (1, prog(big, depth)))
 
 
 def prog(cfg, depth=1, max_ops=None):
